@@ -18,6 +18,7 @@
 //     <ENQUEUED> <DIRTY> <SUSPEND_INTERVAL> <HAS_SIDE> <INACTIVE> <NEEDS_ACTIVATION> <ROLE_BASE_ANON> <ROLE_MASK>
 //   R <round> <lane address> <inactive> <nsub> <nctl> <nitems> <wakeup qos> <initial dq_state> <final dq_state>
 //     <seq at begin> <seq at end> <ran> <all ran ok> <suspends> <resumes> <activates> <deep> <final side count> <role after activation>
+//     <wakeup qos after the round>
 //   E ... (dv_record.h format; obj = round for the lane)
 // harness-level events (dv_user, obj = round):
 //   DVU_CALL a = api + 256 * wakeup qos, b = call id      DVU_RET a = api, b = call id      (api: 1 async 2 suspend 3 resume 4 activate)
@@ -92,7 +93,10 @@ static void *submitter(void *a) {
 		if (k >= MAXITEMS) break;
 		item_t *it = &items[k]; it->round = cur_round; it->ticket = k; it->susp = (lcg(&r) % 9 == 0);
 		int id = atomic_fetch_add(&next_call, 1);
-		dv_user(DVU_CALL, cur_round, (unsigned long long)API_ASYNC | ((unsigned long long)cur_wq << 8), (unsigned long long)id);
+		// the wakeup qos derives from dq_priority, which the activation of an inactive queue changes: read it per call
+		dispatch_lane_t dl = upcast(cur_q)._dl;
+		int wq = (int)_dispatch_queue_wakeup_qos(dl, _dispatch_queue_push_qos(dl, DISPATCH_QOS_UNSPECIFIED));
+		dv_user(DVU_CALL, cur_round, (unsigned long long)API_ASYNC | ((unsigned long long)wq << 8), (unsigned long long)id);
 		dispatch_async_f(cur_q, it, work);
 		dv_user(DVU_RET, cur_round, API_ASYNC, (unsigned long long)id);
 	}
@@ -208,10 +212,11 @@ int main(int argc, char **argv) {
 		usleep(300);
 		uint64_t st1 = *(volatile uint64_t *)&dl->dq_state;
 		unsigned long long seq1 = atomic_load(&dv_seq);
-		printf("R %d %" PRIuPTR " %d %d %d %d %d %" PRIu64 " %" PRIu64 " %llu %llu %d %d %d %d %d %d %u %llu\n", i, (uintptr_t)dl, inactive, nsub, nctl,
+		printf("R %d %" PRIuPTR " %d %d %d %d %d %" PRIu64 " %" PRIu64 " %llu %llu %d %d %d %d %d %d %u %llu %d\n", i, (uintptr_t)dl, inactive, nsub, nctl,
 				total, cur_wq, st0, st1, seq0, seq1, atomic_load(&ran), ok, atomic_load(&n_susp), atomic_load(&n_res),
 				atomic_load(&n_act), deep, (unsigned)dl->dq_side_suspend_cnt,
-				(unsigned long long)(st1 & DISPATCH_QUEUE_ROLE_MASK));
+				(unsigned long long)(st1 & DISPATCH_QUEUE_ROLE_MASK),
+				(int)_dispatch_queue_wakeup_qos(dl, _dispatch_queue_push_qos(dl, DISPATCH_QOS_UNSPECIFIED)));
 		if (!ok) break;
 		// the queue is deliberately kept (leaked): the recorder's range must stay valid
 	}
